@@ -234,7 +234,7 @@ func c14(c *Ctx) {
 		}},
 		{"retryCount incremented", func(i ssa.Instruction) bool {
 			st, ok := i.(*ssa.Store)
-			return ok && fieldOfAddr(st.Addr) == a.vs["retryCount"] && facts.Term(st.Val) == "("+s+".retryCount + 1)"
+			return ok && fieldOfAddr(st.Addr) == a.vs["retryCount"] && (facts.Term(st.Val) == "("+s+".retryCount + 1)" || facts.Term(st.Val) == "(1 + "+s+".retryCount)")
 		}},
 		{"lastRetry set to now", func(i ssa.Instruction) bool {
 			st, ok := i.(*ssa.Store)
@@ -303,6 +303,10 @@ func c14(c *Ctx) {
 			n++
 			okS := st.Fn == fn && st.Instr.Block() == post.Block() || facts.Before(st.Instr, func(i ssa.Instruction) bool { return i == post })
 			R.Check("C14.progress", R.Key("C14.progress", shortFn(st.Fn), "store:"+name), c.sitePos(p, st), name+" is written only on the retry branch", okS && st.Fn == fn, "written elsewhere")
+			if name == "retryCount" {
+				vt := facts.Term(st.Instr.(*ssa.Store).Val)
+				R.Check("C14.progress", R.Key("C14.progress", shortFn(st.Fn), "retryCount-step-one"), c.sitePos(p, st), "the retry counter advances by exactly one per retry performed (the budget counts retries, so an entry is not expired before that many re-sends)", vt == "("+s+".retryCount + 1)" || vt == "(1 + "+s+".retryCount)", "retryCount is set to "+vt)
+			}
 		}
 		R.Floor("C14.progress."+name, n, 1)
 	}
